@@ -182,6 +182,18 @@ def digests_inproc(chk, prop, base_seed, tier, idxs) -> dict:
     return out
 
 
+def _replay_fresh(path: str) -> tuple[bool, str | None]:
+    """Replay in a fresh interpreter; (reproduced, digest)."""
+    p = subprocess.run([sys.executable, "-m", "sim.run", "replay", path],
+                       cwd=VERIF_ROOT, capture_output=True, text=True,
+                       timeout=900)
+    dig = None
+    for line in p.stdout.splitlines():
+        if line.strip().startswith("digest:"):
+            dig = line.split()[1]
+    return p.returncode == 1, dig
+
+
 def determinism_selftest(chk, prop, base_seed, tier, n, fresh=True,
                          verbose=False) -> list[str]:
     """Same seeds twice in this process and once in a fresh interpreter
@@ -264,9 +276,14 @@ def cmd_check(args) -> int:
     nd = chk.budget(tier).get("det_seeds", 8)
     bad = determinism_selftest(chk, prop, base_seed, tier, nd,
                                fresh=not args.no_fresh, verbose=True)
+    nondet = bad
     if bad:
-        print(f"HARNESS-NONDETERMINISM property={prop} runs={bad}")
-        return 2
+        # keep going: if the batch finds a violation that replays in a
+        # fresh interpreter, that is what explains the divergence (state
+        # leaking between runs) and it is reported as such; otherwise the
+        # run ends with HARNESS-NONDETERMINISM and exit 2
+        print(f"# determinism self-test diverged on runs {bad}; continuing "
+              "to look for a replayable violation")
     det_s = time.time() - t0
 
     # 2. the batch
@@ -331,11 +348,11 @@ def cmd_check(args) -> int:
         by_sig.setdefault(v["violation"]["sig"], v)
     for v in list(by_sig.values())[:6]:
         path = write_replay(prop, tier, base_seed, v, None)
-        # self-replay in this process before reporting
-        code, res = replay_file(os.path.join(VERIF_ROOT, path), quiet=True)
+        # self-replay in a fresh interpreter before reporting
+        code, dig = _replay_fresh(path)
         with open(os.path.join(VERIF_ROOT, path)) as f:
             doc = json.load(f)
-        doc["digest"] = res.get("digest")
+        doc["digest"] = dig
         doc["self_replay_reproduced"] = bool(code)
         with open(os.path.join(VERIF_ROOT, path), "w") as f:
             json.dump(doc, f, indent=1, sort_keys=True, default=str)
@@ -350,6 +367,14 @@ def cmd_check(args) -> int:
         print(f"VIOLATION property={prop} replay={path}")
         reported += 1
         rc = 1
+    if nondet and not reported:
+        print(f"HARNESS-NONDETERMINISM property={prop} runs={nondet}")
+        rc = max(rc, 2)
+    elif nondet:
+        print(f"# note: determinism self-test diverged on {nondet}; the "
+              "violation(s) above replay in a fresh interpreter")
+    if reported:
+        rc = 1          # a violation that replays in a fresh interpreter
     n_more = len(agg["violations"]) - reported
     if n_more > 0:
         print(f"# {n_more} further violating run(s) not reported "
